@@ -10,6 +10,7 @@ from sim.core import EndRun
 from sim.models import election as M
 
 PROP = "C13"
+FORKS = True      # snapshot / restore events (core.Ctx.maybe_fork)
 LEVEL = "exploration"
 RULE = (
     "1-6 stub members with sticky seeded state regimes x SimpleMajority / MinimumApproval(a) / OrderedApproval(a,c) / "
@@ -65,6 +66,7 @@ def run(case, ctx):
     interesting = False
     for t, votes in enumerate(case["events"]):
         ctx.step = t
+        conf = ctx.maybe_fork(conf)
         if len(votes) != n:
             raise EndRun()
         for m, v in zip(members, votes):
